@@ -413,6 +413,31 @@ static void fresh(void)
     }
     cmi_hashheap_initialize(&hh, (uint16_t)o_exp, cmp);
     opname = "init";
+    /* the object under test may also have a past of its own: grown beyond its initial size and reset, and after that
+     * used within the initial size and cleared; what follows must behave as on a new object, and the keys of
+     * the past must stay dead */
+    const int life = vx_opt_int("lives", 1) ? vx_choose_free(3, "life") : 0;
+    if (life >= 1) {
+        opname = "earlier-life";
+        const int cnt = (1 << o_exp) + 1;
+        for (int k = 0; k < cnt; k++) {
+            do_enqueue(keymode == 1 ? (uint64_t)(0x7000 + 13 * k) : 0, k % 4);
+        }
+        do_remove(live[by_seq_rank(nlive / 2)].key);
+        cmi_hashheap_reset(&hh);
+        while (nlive) {
+            model_remove(nlive - 1);
+        }
+        if (life == 2) {
+            do_enqueue(keymode == 0 ? 0 : (uint64_t)0x7100, 1);
+            do_enqueue(keymode == 1 ? (uint64_t)0x7200 : 0, 2);
+            cmi_hashheap_clear(&hh);
+            while (nlive) {
+                model_remove(nlive - 1);
+            }
+        }
+        opname = "init";
+    }
 }
 
 static void run_seq(void)
